@@ -5,6 +5,7 @@ import (
 	"encoding/json"
 	"errors"
 	"fmt"
+	"math"
 	"os"
 	"os/exec"
 	"strings"
@@ -26,6 +27,9 @@ type retrySpec struct {
 	Interval int      `json:"interval_ms"`
 	DurMs    int      `json:"dur_ms"` // every attempt of a failing outcome takes this long
 	Forever  bool     `json:"forever"` // the job fails on every attempt
+	// what the job's Description() does: "" returns its name | "panic" panics | "nilderef" dereferences a nil
+	// field of the job (and then a "panic" outcome of Execute is a dereference of the same nil field)
+	Desc string `json:"desc,omitempty"`
 }
 
 type retryBatch struct {
@@ -69,9 +73,22 @@ type scripted struct {
 	later    atomic.Int64
 	onAttempt func(k int, ctx context.Context) // hook for cancellation scenarios (called inside attempt k of the first fire)
 	fireOf   func() int
+	dep      *jobDep // a dependency the job was built without when spec.Desc == "nilderef"
 }
 
-func (j *scripted) Description() string { return j.spec.Name }
+type jobDep struct{ label string }
+
+// Description is user code like Execute: a job that is broken badly enough (built with a nil dependency, a
+// typed-nil receiver) panics here as well.  Nothing the scheduler does with a job may take the process down.
+func (j *scripted) Description() string {
+	switch j.spec.Desc {
+	case "panic":
+		panic("scripted panic in Description()")
+	case "nilderef":
+		return j.dep.label
+	}
+	return j.spec.Name
+}
 func (j *scripted) Execute(ctx context.Context) error {
 	fire := j.fireOf()
 	if fire > 2 {
@@ -117,6 +134,9 @@ func (j *scripted) Execute(ctx context.Context) error {
 	case "wrapcancel":
 		return fmt.Errorf("upstream call aborted: %w", context.Canceled)
 	case "panic":
+		if j.spec.Desc == "nilderef" {
+			return errors.New(j.dep.label) // nil pointer dereference
+		}
 		panic("scripted panic")
 	}
 	return nil
@@ -305,6 +325,29 @@ func specsFor(interval int, maxrs []int, tag string) []retrySpec {
 	return out
 }
 
+// jobs that are broken in Description() as well
+func descSpecs(tag string) []retrySpec {
+	rep := func(s string, n int) []string {
+		out := make([]string, n)
+		for i := range out {
+			out[i] = s
+		}
+		return out
+	}
+	var out []retrySpec
+	add := func(sc []string, m int, desc string) {
+		out = append(out, retrySpec{Name: fmt.Sprintf("%s_%d_m%d_%s", tag, len(out), m, desc), Script: sc, MaxR: m, Interval: 1, Desc: desc})
+	}
+	for _, desc := range []string{"panic", "nilderef"} {
+		add([]string{"panic", "ok"}, 2, desc)         // Execute panics at once
+		add([]string{"fail", "panic", "ok"}, 3, desc) // ... on a retry
+		add(rep("fail", 12), 0, desc)                 // Execute only fails: no retries configured
+		add(rep("fail", 12), 2, desc)                 // ... retries used up
+		add([]string{"fail", "ok"}, 1, desc)          // succeeds on its retry
+	}
+	return out
+}
+
 func runChild(b retryBatch) []retryObs {
 	arg, _ := json.Marshal(b)
 	cmd := exec.Command(os.Args[0], "retrychild", string(arg))
@@ -344,6 +387,23 @@ func cmdRetry() {
 		retryBatch{Mode: "pool", Limit: 8, Cancel: "none", Specs: append(specsFor(1, []int{-1, 0, 1, 3}, "p"), specsFor(20, []int{2, 7}, "p")...)},
 		retryBatch{Mode: "blocking", Cancel: "none", Specs: append(specsFor(0, []int{0, 2, 7}, "b"), specsFor(1, []int{-1, 1, 3}, "b")...)},
 	)
+	// MaxRetries at the ends of its type: the budget is max(0, MaxRetries) whatever the value
+	extremes := []int{math.MaxInt, math.MaxInt - 1, math.MinInt, math.MinInt + 1}
+	batches = append(batches,
+		retryBatch{Mode: "unbounded", Cancel: "none", Specs: append(specsFor(0, extremes, "xu"), specsFor(1, []int{math.MaxInt, math.MinInt}, "xu")...)},
+		retryBatch{Mode: "pool", Limit: 4, Cancel: "none", Specs: specsFor(1, []int{math.MaxInt, math.MaxInt - 1, math.MinInt}, "xp")},
+		retryBatch{Mode: "blocking", Cancel: "none", Specs: specsFor(0, []int{math.MaxInt, math.MinInt}, "xb")},
+	)
+	// jobs whose Description() panics: whether Execute panics, fails until the retries are used up or succeeds,
+	// the scheduler, the other jobs and Wait are unaffected (a batch of their own: a dying process is narrowed
+	// down spec by spec)
+	for _, m := range []struct {
+		mode  string
+		limit int
+		tag   string
+	}{{"unbounded", 0, "du"}, {"pool", 2, "dp"}, {"blocking", 0, "db"}} {
+		batches = append(batches, retryBatch{Mode: m.mode, Limit: m.limit, Cancel: "none", Specs: descSpecs(m.tag)})
+	}
 	if tier == "thorough" {
 		batches = append(batches,
 			retryBatch{Mode: "pool", Limit: 2, Cancel: "none", Specs: specsFor(1, maxrs, "p2")},
@@ -413,7 +473,7 @@ func cmdDirect() {
 	var all []retryObs
 	for _, iv := range []int{0, 1} {
 		for si, sc := range scripts() {
-			for _, m := range []int{-1, 0, 1, 2, 3, 7} {
+			for _, m := range []int{-1, 0, 1, 2, 3, 7, math.MaxInt, math.MaxInt - 1, math.MinInt} {
 				for _, cancel := range []string{"none", "precancelled"} {
 					if cancel == "precancelled" && iv == 0 {
 						continue // both select arms ready: the outcome is not determined
